@@ -98,6 +98,10 @@ BUILTINS = {
     # method name, so replacing the stable sort by an unstable one fails the ordering contract
     'sort_by_line': (r'diags\.(sort_by_key|sort_by_cached_key|sort_unstable_by_key)\(\|diag\| diag\.line\)',
                      lambda m: '%s_sort_by_line(&mut diags)' % ('unstable' if 'unstable' in m.group(1) else 'stable')),
+    # COND.then(|| X).unwrap_or(Y)  ->  if COND { X } else { Y }     (definition of bool::then + Option::unwrap_or;
+    # Y must be a constant expression since unwrap_or evaluates it eagerly)
+    'bool_then': (r'(?s)^\{\s*(.*?)\s*\.then\(\|\| (.*?)\)\s*\.unwrap_or\((Err\(\w+\))\)\s*\}$',
+                  lambda m: '{ if %s { %s } else { %s } }' % (m.group(1), m.group(2), m.group(3))),
     # Val::Number(a + b)  ->  Val::Number(f64_binop('+', *a, *b))   (a, b are `&f64` bindings)
     'f64arith': (r'Val::Number\((\w+) ([-+*/]) (\w+)\)',
                  lambda m: "Val::Number(f64_binop('%s', *%s, *%s))" % (m.group(2), m.group(1), m.group(3))),
@@ -255,8 +259,9 @@ def emit_fn(b, out, meta, unit_rw, unit_name):
             st, pe, bs, be = cls[n - 1]
             cbody = body[bs:be].strip()
             inner = cbody[1:-1].strip() if cbody.startswith('{') and cbody.endswith('}') else cbody
-            new = '%s { %s %s }' % (header.replace('$BODY', inner), prelude.replace('$BODY', inner), inner)
-            edits.append((st, be, new))
+            # two edits (header, closing brace) so that closures nested inside this one can be annotated too
+            edits.append((st, bs, '%s { %s ' % (header.replace('$BODY', inner), prelude.replace('$BODY', inner))))
+            edits.append((be, be, ' }'))
     for st, en, new in sorted(edits, reverse=True):
         body = body[:st] + new + body[en:]
     body, nrw = apply_rw(body, list(b.d['rw']) + [r for r in unit_rw], '%s::%s' % (rel, name))
